@@ -38,7 +38,7 @@ def memoFor (contract : String) : String := "{\"ibc_callback\":\"" ++ contract +
 
 /-- `ibc_transfer_msg` -/
 def ibcTransferMsg (s : CState) (env : Env) (receiver : String) (coin : Coin) : R Msg := do
-  if s.config.proto.channel.isEmpty then throw .ibcChannelNotFound
+  ensure (!s.config.proto.channel.isEmpty) .ibcChannelNotFound
   let timeout ← add64 "A01" env.timeNs IBC_TIMEOUT_NS
   pure (.transfer s.config.proto.channel "transfer" env.contract receiver coin timeout (memoFor env.contract))
 
@@ -48,13 +48,17 @@ def saveWaiting (s : CState) (id : Nat) (w : Waiting) : R CState :=
   | some _ => .error .contractLocked
   | none => .ok { s with waiting := s.waiting.insert id w }
 
+/-- the default reply id: `tx.index as u64 + time.nanos()` or `time.nanos()` -/
+def defaultSubId (env : Env) : R Nat :=
+  match env.txIndex with
+  | some i => add64 "A03" i env.timeNs
+  | none => .ok env.timeNs
+
 /-- `ibc_transfer_sub_msg`; note that the default id is computed eagerly (`unwrap_or(expr)`) -/
 def ibcTransferSubMsg (s : CState) (env : Env) (receiver : String) (coin : Coin)
     (subId : Option Nat) : R (CState × SubMsg) := do
   let m ← ibcTransferMsg s env receiver coin
-  let dflt ← match env.txIndex with
-    | some i => add64 "A03" i env.timeNs
-    | none => pure env.timeNs
+  let dflt ← defaultSubId env
   let id := subId.getD dflt
   let s' ← saveWaiting s id { coin := coin, receiver := receiver }
   pure (s', { id := id, msg := m, replyAlways := true })
@@ -65,14 +69,12 @@ def oraclePayload (denom purchase redemption : String) : String :=
 
 /-- `update_oracle_msgs`: rates are read from the store `s`, the oracle address is unwrapped -/
 def updateOracleMsgs (s : CState) (env : Env) (cfg : Config) : R (List SubMsg) := do
-  let (red, pur) ← getRates s
-  let payload := oraclePayload cfg.lstDenom (decimalToString pur) (decimalToString red)
-  match cfg.proto.oracle with
-  | none => throw (.panic "A05")
-  | some o => pure [plain (.wasmExec env.contract o payload)]
+  let rates ← getRates s
+  let payload := oraclePayload cfg.lstDenom (decimalToString rates.2) (decimalToString rates.1)
+  let o ← loadSome cfg.proto.oracle (.panic "A05")
+  pure [plain (.wasmExec env.contract o payload)]
 
-def checkStopped (cfg : Config) : R Unit :=
-  if cfg.stopped then .error .halted else .ok ()
+def checkStopped (cfg : Config) : R Unit := ensure (!cfg.stopped) .halted
 
 def isOk {α} : R α → Bool
   | .ok _ => true
@@ -80,138 +82,151 @@ def isOk {α} : R α → Bool
 
 /-- `ADMIN.assert_admin` -/
 def assertAdmin (s : CState) (sender : String) : R Unit :=
-  match s.admin with
-  | some a => if sender = a then .ok () else .error .admin
-  | none => .error .admin
+  ensure (s.admin == some sender) .admin
 
 /-! ## execute.rs: handlers -/
+
+/-- the `MissingMintAddress` test: evaluated only when no recipient is named -/
+def checkSenderShape (cfg : Config) (info : Info) (mintTo : Option String) : R Unit :=
+  match mintTo with
+  | some _ => .ok ()
+  | none => do
+    let d ← subUsize "A06" info.sender.utf8ByteSize cfg.proto.accountPrefix.utf8ByteSize
+    ensure (d == 39) .missingMintAddress
+
+/-- ownerless stake (LST total zero, staked total not) is swept to the fees -/
+def sweep (st : St) : R St :=
+  if st.totalLst = 0 ∧ st.totalNative ≠ 0 then do
+    let f ← add128 "A07" st.totalFees st.totalNative
+    pure { st with totalFees := f, totalNative := 0 }
+  else pure st
+
+def checkExpected (mintAmount : Nat) (expected : Option Nat) : R Unit :=
+  match expected with
+  | some e => ensure (decide (mintAmount ≥ e)) .mintAmountMismatch
+  | none => .ok ()
+
+/-- whether the minted tokens are delivered on the protocol chain (else: IBC to the native chain) -/
+def deliverOnProtocol (cfg : Config) (mintToAddr : String) (toNative : Option Bool) : Bool :=
+  let isNative := isOk (validateAddress mintToAddr cfg.native.accountPrefix)
+  let isProto := isOk (validateAddress mintToAddr cfg.proto.accountPrefix)
+  if isNative && isProto then !(toNative.getD false) else isProto
 
 /-- `execute_liquid_stake` -/
 def liquidStake (s : CState) (env : Env) (info : Info) (amount : Nat)
     (mintTo : Option String) (toNative : Option Bool) (expected : Option Nat) : R Out := do
   let cfg := s.config
   checkStopped cfg
-  if mintTo.isNone then
-    let d ← subUsize "A06" info.sender.utf8ByteSize cfg.proto.accountPrefix.utf8ByteSize
-    if d ≠ 39 then throw .missingMintAddress
+  checkSenderShape cfg info mintTo
   let mintToAddr := mintTo.getD info.sender
-  let isNative0 := isOk (validateAddress mintToAddr cfg.native.accountPrefix)
-  let isProto0 := isOk (validateAddress mintToAddr cfg.proto.accountPrefix)
-  if !isProto0 && !isNative0 then throw .invalidAddress
-  let isProto := if isNative0 && isProto0 then !(toNative.getD false) else isProto0
-  let st := s.st
-  if amount < cfg.proto.minStake then throw .minimumLiquidStake
-  -- ownerless stake is swept to the fees
-  let st ← if st.totalLst = 0 && st.totalNative ≠ 0 then do
-      let f ← add128 "A07" st.totalFees st.totalNative
-      pure { st with totalFees := f, totalNative := 0 }
-    else pure st
+  ensure (isOk (validateAddress mintToAddr cfg.proto.accountPrefix)
+          || isOk (validateAddress mintToAddr cfg.native.accountPrefix)) .invalidAddress
+  let isProto := deliverOnProtocol cfg mintToAddr toNative
+  ensure (decide (amount ≥ cfg.proto.minStake)) .minimumLiquidStake
+  let st ← sweep s.st
   let mintAmount ← computeMint st.totalNative st.totalLst amount
-  if mintAmount = 0 then throw .mintError
-  match expected with
-  | some e => if mintAmount < e then throw .mintAmountMismatch
-  | none => pure ()
+  ensure (mintAmount != 0) .mintError
+  checkExpected mintAmount expected
   let mintMsg := plain (.mint env.contract cfg.lstDenom mintAmount env.contract)
-  let (s1, stakeSub) ← ibcTransferSubMsg s env cfg.native.staker ⟨cfg.proto.ibcDenom, amount⟩ none
+  let r1 ← ibcTransferSubMsg s env cfg.native.staker ⟨cfg.proto.ibcDenom, amount⟩ none
   -- computed from the store *before* the state is saved (execute.rs:240 vs :245)
-  let oracle ← updateOracleMsgs s1 env cfg
+  let oracle ← updateOracleMsgs r1.1 env cfg
   let n' ← add128 "A09a" st.totalNative amount
   let l' ← add128 "A09b" st.totalLst mintAmount
-  let s2 := { s1 with st := { st with totalNative := n', totalLst := l' } }
-  let base := [mintMsg] ++ oracle ++ [stakeSub]
+  let s2 := { r1.1 with st := { st with totalNative := n', totalLst := l' } }
+  let base := [mintMsg] ++ oracle ++ [r1.2]
   if isProto then
     pure (s2, base ++ [plain (.msgSend env.contract mintToAddr [⟨cfg.lstDenom, mintAmount⟩])])
   else do
-    let id2 ← add64 "A10" stakeSub.id 1
+    let id2 ← add64 "A10" r1.2.id 1
     -- execute.rs:273 passes `amount`, not `mint_amount`
-    let (s3, lstSub) ← ibcTransferSubMsg s2 env mintToAddr ⟨cfg.lstDenom, amount⟩ (some id2)
-    pure (s3, base ++ [lstSub])
+    let r3 ← ibcTransferSubMsg s2 env mintToAddr ⟨cfg.lstDenom, amount⟩ (some id2)
+    pure (r3.1, base ++ [r3.2])
 
 def findReq (reqs : List Req) (batch : Nat) (user : String) : Option Req :=
   reqs.find? (fun r => r.batch = batch && r.user = user)
 
-def addToReq (reqs : List Req) (batch : Nat) (user : String) (amount : Nat) : List Req :=
+def setReqAmount (reqs : List Req) (batch : Nat) (user : String) (amount : Nat) : List Req :=
   reqs.map fun r => if r.batch = batch && r.user = user then { r with amount := amount } else r
 
 def removeReq (reqs : List Req) (batch : Nat) (user : String) : List Req :=
   reqs.filter fun r => !(r.batch = batch && r.user = user)
 
+/-- accumulate-or-create; returns the new request list and whether a request was created -/
+def upsertReq (reqs : List Req) (p : Nat) (user : String) (amount : Nat) : R (List Req × Bool) :=
+  match findReq reqs p user with
+  | some r => do
+    let a ← add128 "A11a" r.amount amount
+    pure (setReqAmount reqs p user a, false)
+  | none => pure (reqs ++ [{ batch := p, user := user, amount := amount }], true)
+
+def bumpCount (b : Batch) (isNew : Bool) : R (Option Nat) :=
+  if isNew then do
+    let c ← add64 "A13" (b.reqCount.getD 0) 1
+    pure (some c)
+  else pure b.reqCount
+
 /-- `execute_liquid_unstake` -/
 def liquidUnstake (s : CState) (_env : Env) (info : Info) (amount : Nat) : R Out := do
-  let cfg := s.config
-  checkStopped cfg
+  checkStopped s.config
   let p := s.pendingId
-  let (reqs, isNew) ← match findReq s.reqs p info.sender with
-    | some r => do
-      let a ← add128 "A11a" r.amount amount
-      pure (addToReq s.reqs p info.sender a, false)
-    | none => pure (s.reqs ++ [{ batch := p, user := info.sender, amount := amount }], true)
-  match s.batches.find? p with
-  | none => throw (.panic "A12")
-  | some b =>
-    let tot ← add128 "A11b" b.total amount
-    let cnt ← if isNew then do
-        let c ← add64 "A13" (b.reqCount.getD 0) 1
-        pure (some c)
-      else pure b.reqCount
-    let b' := { b with total := tot, reqCount := cnt }
-    pure ({ s with reqs := reqs, batches := s.batches.insert p b' }, [])
+  let up ← upsertReq s.reqs p info.sender amount
+  let b ← loadSome (s.batches.find? p) (.panic "A12")
+  let tot ← add128 "A11b" b.total amount
+  let cnt ← bumpCount b up.2
+  let b' := { b with total := tot, reqCount := cnt }
+  pure ({ s with reqs := up.1, batches := s.batches.insert p b' }, [])
+
+/-- the deadline test of `execute_submit_batch` -/
+def batchDue (b : Batch) (nowS : Nat) : Bool :=
+  match b.nextAction with
+  | some t => decide (t ≤ nowS)
+  | none => false
 
 /-- `execute_submit_batch` -/
 def submitBatch (s : CState) (env : Env) (_info : Info) : R Out := do
   let cfg := s.config
   checkStopped cfg
   let p := s.pendingId
-  match s.batches.find? p with
-  | none => throw (.std "NotFound")
-  | some batch =>
-    match batch.nextAction with
-    | some t => if env.seconds < t then throw .batchNotReady
-    | none => throw .batchNotReady
-    if !(s.reqs.any (fun r => r.batch = p)) then throw .batchEmpty
-    let st := s.st
-    if st.totalLst < batch.total then throw .invalidUnstakeAmount
-    let newId ← add64 "A14" batch.id 1
-    let due ← add64 "A15" env.seconds cfg.batchPeriod
-    let newBatch := Batch.new newId 0 due
-    let batches1 := s.batches.insert newId newBatch
-    let burnMsg := plain (.burn env.contract cfg.lstDenom batch.total env.contract)
-    let unbond ← computeUnbond st.totalNative st.totalLst batch.total
-    let n' := (checkedSub st.totalNative unbond).getD 0
-    let l' := (checkedSub st.totalLst batch.total).getD 0
-    let st' := { st with totalNative := n', totalLst := l' }
-    let due2 ← add64 "A17" env.seconds cfg.native.unbondingPeriod
-    let batch' := ({ batch with expected := some unbond }).updateStatus .submitted (some due2)
-    let s' := { s with st := st', pendingId := newId, batches := batches1.insert batch.id batch' }
-    let oracle ← updateOracleMsgs s' env cfg
-    pure (s', [burnMsg] ++ oracle)
+  let batch ← loadSome (s.batches.find? p) (.std "NotFound")
+  ensure (batchDue batch env.seconds) .batchNotReady
+  ensure (s.reqs.any (fun r => r.batch = p)) .batchEmpty
+  let st := s.st
+  ensure (decide (st.totalLst ≥ batch.total)) .invalidUnstakeAmount
+  let newId ← add64 "A14" batch.id 1
+  let due ← add64 "A15" env.seconds cfg.batchPeriod
+  let batches1 := s.batches.insert newId (Batch.new newId 0 due)
+  let burnMsg := plain (.burn env.contract cfg.lstDenom batch.total env.contract)
+  let unbond ← computeUnbond st.totalNative st.totalLst batch.total
+  let n' := (checkedSub st.totalNative unbond).getD 0
+  let l' := (checkedSub st.totalLst batch.total).getD 0
+  let st' := { st with totalNative := n', totalLst := l' }
+  let due2 ← add64 "A17" env.seconds cfg.native.unbondingPeriod
+  let batch' := ({ batch with expected := some unbond }).updateStatus .submitted (some due2)
+  let s' := { s with st := st', pendingId := newId, batches := batches1.insert batch.id batch' }
+  let oracle ← updateOracleMsgs s' env cfg
+  pure (s', [burnMsg] ++ oracle)
 
 /-- `execute_withdraw` -/
 def withdraw (s : CState) (env : Env) (info : Info) (batchId : Nat) : R Out := do
   let cfg := s.config
   checkStopped cfg
-  match s.batches.find? batchId with
-  | none => throw .batchEmpty
-  | some batch =>
-    if batch.status ≠ .received then throw .tokensAlreadyClaimed
-    match batch.received with
-    | none => throw (.panic "A19")
-    | some recv =>
-      match findReq s.reqs batch.id info.sender with
-      | none => throw .noRequestInBatch
-      | some r =>
-        let amount ← mulRatio "A20" recv r.amount batch.total
-        let s' := { s with reqs := removeReq s.reqs batch.id info.sender }
-        let send := plain (.msgSend env.contract info.sender [⟨cfg.proto.ibcDenom, amount⟩])
-        let oracle ← updateOracleMsgs s' env cfg
-        pure (s', [send] ++ oracle)
+  let batch ← loadSome (s.batches.find? batchId) .batchEmpty
+  ensure (batch.status == .received) .tokensAlreadyClaimed
+  let recv ← loadSome batch.received (.panic "A19")
+  let r ← loadSome (findReq s.reqs batch.id info.sender) .noRequestInBatch
+  let amount ← mulRatio "A20" recv r.amount batch.total
+  let s' := { s with reqs := removeReq s.reqs batch.id info.sender }
+  let send := plain (.msgSend env.contract info.sender [⟨cfg.proto.ibcDenom, amount⟩])
+  let oracle ← updateOracleMsgs s' env cfg
+  pure (s', [send] ++ oracle)
 
 /-- `execute_add_validator` -/
 def addValidator (s : CState) (info : Info) (v : String) : R Out := do
   assertAdmin s info.sender
   let cfg := s.config
   let addr ← validateAddress v cfg.native.validatorPrefix
-  if cfg.native.validators.contains addr then throw .duplicateValidator
+  ensure (!cfg.native.validators.contains addr) .duplicateValidator
   let cfg' := { cfg with native := { cfg.native with validators := cfg.native.validators ++ [addr] } }
   pure ({ s with config := cfg' }, [])
 
@@ -220,7 +235,7 @@ def removeValidator (s : CState) (info : Info) (v : String) : R Out := do
   assertAdmin s info.sender
   let cfg := s.config
   let addr ← validateAddress v cfg.native.validatorPrefix
-  if !(cfg.native.validators.contains addr) then throw .validatorNotFound
+  ensure (cfg.native.validators.contains addr) .validatorNotFound
   let cfg' := { cfg with native := { cfg.native with validators := cfg.native.validators.erase addr } }
   pure ({ s with config := cfg' }, [])
 
@@ -239,23 +254,21 @@ def revokeOwnership (s : CState) (info : Info) : R Out := do
   assertAdmin s info.sender
   pure ({ s with st := { s.st with pendingOwner := none, ownerMinTime := none } }, [])
 
+/-- the time lock of `execute_accept_ownership` -/
+def ownershipRipe (minTime : Option Nat) (nowS : Nat) : Bool :=
+  match minTime with
+  | some t => decide (t / 1000000000 ≤ nowS)
+  | none => true
+
 /-- `execute_accept_ownership` -/
 def acceptOwnership (s : CState) (env : Env) (info : Info) : R Out := do
-  match s.st.ownerMinTime with
-  | some t => if t / 1000000000 > env.seconds then throw .ownershipNotReady
-  | none => pure ()
-  match s.st.pendingOwner with
-  | some p =>
-    if p = info.sender then
-      pure ({ s with st := { s.st with pendingOwner := none }, admin := some p }, [])
-    else throw .noPendingOwner
-  | none => throw .noPendingOwner
+  ensure (ownershipRipe s.st.ownerMinTime env.seconds) .ownershipNotReady
+  ensure (s.st.pendingOwner == some info.sender) .noPendingOwner
+  pure ({ s with st := { s.st with pendingOwner := none }, admin := some info.sender }, [])
 
 /-- `paginate_map` over an `AMap` (ascending): exclusive cursor, the limit counts matches only -/
 def paginate {α} (m : AMap α) (startAfter : Option Nat) (limit : Option Nat) (f : α → Bool) : List α :=
   (((m.after startAfter).map (·.2)).filter f).take (limit.getD U32.max)
-
-def sumCoins (ps : List Packet) : Nat := (ps.map (·.coin.amount)).sum
 
 def loadPackets (s : CState) (receiver : String) : List Nat → R (List Packet)
   | [] => .ok []
@@ -275,111 +288,117 @@ def sumAmounts (site : String) : List Packet → Nat → R Nat
     | .error e => .error e
     | .ok a => sumAmounts site rest a
 
+/-- packets a non-forced recovery re-sends: refunded (failed / timed-out) ones of that receiver -/
+def refundable (receiver : String) (p : Packet) : Bool :=
+  p.receiver = receiver && (p.status = .ackFailure || p.status = .timedOut)
+
+def selectPackets (s : CState) (recv : String) (selected : Option (List Nat)) (page : Bool) : R (List Packet) :=
+  match selected with
+  | some ids => loadPackets s recv ids
+  | none => .ok (paginate s.inflight none (if page then some 10 else none) (refundable recv))
+
+def recoverReceiver (cfg : Config) (receiver : Option String) : R String :=
+  match receiver with
+  | some r => validateAddress r cfg.native.accountPrefix
+  | none => .ok cfg.native.staker
+
+def firstDenom (ps : List Packet) : R String :=
+  match ps with
+  | [] => .error .noInflightPackets
+  | p0 :: _ => .ok p0.coin.denom
+
+def erasePackets (m : AMap Packet) (ps : List Packet) : AMap Packet :=
+  ps.foldl (fun m p => m.erase p.seq) m
+
 /-- `recover` -/
 def recover (s : CState) (env : Env) (info : Info) (selected : Option (List Nat))
     (receiver : Option String) (page : Bool) : R Out := do
-  if selected.isSome then assertAdmin s info.sender
+  ensure (selected.isNone || isOk (assertAdmin s info.sender)) .admin
   let cfg := s.config
-  let recv ← match receiver with
-    | some r => validateAddress r cfg.native.accountPrefix
-    | none => pure cfg.native.staker
-  let packets ← match selected with
-    | some ids => loadPackets s recv ids
-    | none => pure (paginate s.inflight none (if page then some 10 else none)
-        (fun p => p.receiver = recv && (p.status = .ackFailure || p.status = .timedOut)))
-  match packets with
-  | [] => throw .noInflightPackets
-  | p0 :: rest =>
-    if rest.any (fun p => p.coin.denom ≠ p0.coin.denom) then throw .inconsistentDenom
-    match s.inflight.maxKey? with
-    | none => throw (.panic "A26")
-    | some maxId =>
-      let inflight' := packets.foldl (fun m p => m.erase p.seq) s.inflight
-      let total ← sumAmounts "A27" packets 0
-      let id ← add64 "A28" maxId 1
-      let (s', sub) ← ibcTransferSubMsg { s with inflight := inflight' } env recv ⟨p0.coin.denom, total⟩ (some id)
-      pure (s', [sub])
+  let recv ← recoverReceiver cfg receiver
+  let packets ← selectPackets s recv selected page
+  let denom ← firstDenom packets
+  ensure (packets.all (fun p => p.coin.denom = denom)) .inconsistentDenom
+  let maxId ← loadSome s.inflight.maxKey? (.panic "A26")
+  let inflight' := erasePackets s.inflight packets
+  let total ← sumAmounts "A27" packets 0
+  let id ← add64 "A28" maxId 1
+  let r ← ibcTransferSubMsg { s with inflight := inflight' } env recv ⟨denom, total⟩ (some id)
+  pure (r.1, [r.2])
+
+def optValidate {α β} (o : Option α) (f : α → R β) (dflt : β) : R β :=
+  match o with
+  | some a => f a
+  | none => .ok dflt
 
 /-- `update_config` -/
 def updateConfig (s : CState) (info : Info) (native : Option UnsafeNative) (proto : Option UnsafeProto)
     (fee : Option UnsafeFee) (monitors : Option (List String)) (batchPeriod : Option Nat) : R Out := do
   assertAdmin s info.sender
   let cfg := s.config
-  let cfg ← match native with
-    | some n => do let v ← n.validate; pure { cfg with native := v }
-    | none => pure cfg
-  let cfg ← match proto with
-    | some p => do let v ← p.validate; pure { cfg with proto := v }
-    | none => pure cfg
-  let cfg ← match fee with
-    | some f => do let v ← f.validate cfg.proto; pure { cfg with feeCfg := v }
-    | none => pure cfg
-  let cfg ← match monitors with
-    | some ms => do let v ← validateAddresses ms cfg.proto.accountPrefix; pure { cfg with monitors := v }
-    | none => pure cfg
-  let cfg := match batchPeriod with
-    | some b => { cfg with batchPeriod := b }
-    | none => cfg
-  pure ({ s with config := cfg }, [])
+  let nat' ← optValidate native (·.validate) cfg.native
+  let proto' ← optValidate proto (·.validate) cfg.proto
+  let fee' ← optValidate fee (·.validate proto') cfg.feeCfg
+  let mons' ← optValidate monitors (validateAddresses · proto'.accountPrefix) cfg.monitors
+  let cfg' := { cfg with native := nat', proto := proto', feeCfg := fee', monitors := mons',
+                         batchPeriod := batchPeriod.getD cfg.batchPeriod }
+  pure ({ s with config := cfg' }, [])
 
 def findCoin (funds : List Coin) (denom : String) : Option Coin :=
   funds.find? (fun c => c.denom = denom)
 
 /-- the ibc-hooks sender test shared by the two `Receive*` handlers -/
 def checkHookSender (cfg : Config) (nativeSender sender : String) : R Unit :=
-  match deriveIntermediateSender cfg.proto.channel nativeSender cfg.proto.accountPrefix with
-  | none => .error .unauthorized
-  | some e => if sender ≠ e then .error .unauthorized else .ok ()
+  ensure (deriveIntermediateSender cfg.proto.channel nativeSender cfg.proto.accountPrefix == some sender) .unauthorized
+
+def accrueFee (cfg : Config) (st : St) (fee : Nat) : R Nat :=
+  if cfg.feeCfg.treasury.isNone then add128 "A33c" st.totalFees fee else .ok st.totalFees
+
+def treasuryMsgs (cfg : Config) (fee : Nat) : List SubMsg :=
+  match cfg.feeCfg.treasury with
+  | some t => [plain (.bankSend t [⟨cfg.proto.ibcDenom, fee⟩])]
+  | none => []
 
 /-- `receive_rewards` -/
 def receiveRewards (s : CState) (env : Env) (info : Info) : R Out := do
   let cfg := s.config
   let st := s.st
   checkStopped cfg
-  if st.totalLst = 0 then throw .noLiquidStake
+  ensure (st.totalLst != 0) .noLiquidStake
   checkHookSender cfg cfg.native.rewardCollector info.sender
-  match findCoin info.funds cfg.proto.ibcDenom with
-  | none => throw (.payment "NoFunds")
-  | some coin =>
-    let amount := coin.amount
-    let fee ← mulRatio "A31" cfg.feeCfg.fee amount 100000
-    match checkedSub amount fee with
-    | none => throw .receiveRewardsTooSmall
-    | some afterFees =>
-      let n' ← add128 "A33a" st.totalNative afterFees
-      let r' ← add128 "A33b" st.totalReward amount
-      let f' ← if cfg.feeCfg.treasury.isNone then add128 "A33c" st.totalFees fee else pure st.totalFees
-      let s1 := { s with st := { st with totalNative := n', totalReward := r', totalFees := f' } }
-      let (s2, sub) ← ibcTransferSubMsg s1 env cfg.native.staker ⟨cfg.proto.ibcDenom, afterFees⟩ none
-      let oracle ← updateOracleMsgs s2 env cfg
-      let base := oracle ++ [sub]
-      match cfg.feeCfg.treasury with
-      | some t => pure (s2, base ++ [plain (.bankSend t [⟨cfg.proto.ibcDenom, fee⟩])])
-      | none => pure (s2, base)
+  let coin ← loadSome (findCoin info.funds cfg.proto.ibcDenom) (.payment "NoFunds")
+  let amount := coin.amount
+  let fee ← mulRatio "A31" cfg.feeCfg.fee amount 100000
+  let afterFees ← loadSome (checkedSub amount fee) .receiveRewardsTooSmall
+  let n' ← add128 "A33a" st.totalNative afterFees
+  let r' ← add128 "A33b" st.totalReward amount
+  let f' ← accrueFee cfg st fee
+  let s1 := { s with st := { st with totalNative := n', totalReward := r', totalFees := f' } }
+  let r2 ← ibcTransferSubMsg s1 env cfg.native.staker ⟨cfg.proto.ibcDenom, afterFees⟩ none
+  let oracle ← updateOracleMsgs r2.1 env cfg
+  pure (r2.1, oracle ++ [r2.2] ++ treasuryMsgs cfg fee)
+
+/-- the unbonding deadline test of `receive_unstaked_tokens` -/
+def unbondingDone (b : Batch) (nowS : Nat) : R Unit :=
+  match b.nextAction with
+  | none => .error .batchNotClaimable
+  | some t => ensure (decide (t ≤ nowS)) .batchNotReady
 
 /-- `receive_unstaked_tokens` -/
 def receiveUnstaked (s : CState) (env : Env) (info : Info) (batchId : Nat) : R Out := do
   let cfg := s.config
   checkStopped cfg
   checkHookSender cfg cfg.native.staker info.sender
-  match findCoin info.funds cfg.proto.ibcDenom with
-  | none => throw (.payment "NoFunds")
-  | some coin =>
-    match s.batches.find? batchId with
-    | none => throw (.std "NotFound")
-    | some batch =>
-      if batch.status ≠ .submitted then throw .batchNotClaimable
-      match batch.nextAction with
-      | none => throw .batchNotClaimable
-      | some t =>
-        if t > env.seconds then throw .batchNotReady
-        let batch' := ({ batch with received := some coin.amount }).updateStatus .received none
-        pure ({ s with batches := s.batches.insert batch.id batch' }, [])
+  let coin ← loadSome (findCoin info.funds cfg.proto.ibcDenom) (.payment "NoFunds")
+  let batch ← loadSome (s.batches.find? batchId) (.std "NotFound")
+  ensure (batch.status == .submitted) .batchNotClaimable
+  unbondingDone batch env.seconds
+  let batch' := ({ batch with received := some coin.amount }).updateStatus .received none
+  pure ({ s with batches := s.batches.insert batch.id batch' }, [])
 
 /-- `circuit_breaker` -/
 def circuitBreaker (s : CState) (info : Info) : R Out := do
-  if !(isOk (assertAdmin s info.sender)) && !(s.config.monitors.contains info.sender) then
-    throw .unauthorized
+  ensure (isOk (assertAdmin s info.sender) || s.config.monitors.contains info.sender) .unauthorized
   pure ({ s with config := { s.config with stopped := true } }, [])
 
 /-- `resume_contract` -/
@@ -395,12 +414,10 @@ def feeWithdraw (s : CState) (env : Env) (info : Info) (amount : Nat) : R Out :=
   assertAdmin s info.sender
   let cfg := s.config
   let st := s.st
-  if st.totalFees < amount then throw .insufficientFunds
-  match cfg.feeCfg.treasury with
-  | none => throw .treasuryNotConfigured
-  | some t =>
-    let s' := { s with st := { st with totalFees := st.totalFees - amount } }
-    pure (s', [plain (.msgSend env.contract t [⟨cfg.proto.ibcDenom, amount⟩])])
+  ensure (decide (amount ≤ st.totalFees)) .insufficientFunds
+  let t ← loadSome cfg.feeCfg.treasury .treasuryNotConfigured
+  let s' := { s with st := { st with totalFees := st.totalFees - amount } }
+  pure (s', [plain (.msgSend env.contract t [⟨cfg.proto.ibcDenom, amount⟩])])
 
 /-- `cw_utils::must_pay` -/
 def mustPay (info : Info) (denom : String) : R Nat :=
